@@ -13,7 +13,7 @@ import gen_prog
 import impl
 import impl_prog
 import jaxtyping
-from common import PY, REPO, Rng
+from common import PY, REPO, Rng, scratch_dir
 from gen_prog import arr_type, arr_val
 from impl import Duck
 from jaxtyping import Float, TypeCheckError, jaxtyped
@@ -29,6 +29,8 @@ THEOREMS = [
     "C19_late_test_differs",
 ]
 RULE = (
+    "a module loaded through the import hook in four fresh interpreters sharing one __pycache__ (imported with "
+    "checking off / on, toggled afterwards, ill- and well-typed calls of a function and a method); "
     "switch spellings: every case variant of 0/1/true/false (50), booleans, 40 junk values and objects, "
     "for both switches and for item names in any case plus unknown items, compared with the model; the "
     "JAXTYPING_DISABLE environment variable in fresh interpreters; decorated callables of every kind "
@@ -117,6 +119,72 @@ def env_cases(out, thorough):
         out.case(("env", sp), True, sample={"JAXTYPING_DISABLE": sp, "observed": got})
         if got != want:
             out.violation(f"env:{sp!r}", f"JAXTYPING_DISABLE={sp!r} gives {got}, must give {want}", {"env": sp, "observed": got})
+
+
+HOOKED_CHILD = r"""
+import json, os, sys
+sys.path.insert(0, sys.argv[2]); sys.path.insert(0, sys.argv[1])
+import jaxtyping
+from jaxtyping import config, install_import_hook
+res = {}
+def call(tag, fn, *a):
+    try:
+        res[tag] = ["ret", repr(fn(*a))]
+    except jaxtyping.TypeCheckError:
+        res[tag] = ["tce", None]
+    except BaseException as e:
+        res[tag] = ["raise", type(e).__name__]
+res["flag_at_import"] = bool(config.jaxtyping_disable)
+with install_import_hook("c19_hooked", "typeguard.typechecked"):
+    import c19_hooked as m
+for step in sys.argv[3].split(","):
+    if step == "off":
+        config.update("jaxtyping_disable", True)
+    elif step == "on":
+        config.update("jaxtyping_disable", False)
+    else:
+        call(step + ":ill-typed", m.double, "ab")
+        call(step + ":well-typed", m.double, 4)
+        call(step + ":method", m.K().twice, "ab")
+print("RESULT " + json.dumps(res))
+"""
+
+
+def hooked_module_cases(out):
+    """a module loaded through the import hook: imported while checking is off / on, toggled afterwards, and
+    loaded again by later interpreters that share its __pycache__ (bytecode writing enabled)"""
+    with scratch_dir("jaxverif_c19_") as root:
+        with open(os.path.join(root, "c19_hooked.py"), "w") as fh:
+            fh.write("def double(x: int) -> int:\n    return x * 2\nclass K:\n    def twice(self, x: int) -> int:\n        return x + x\n")
+        plain = {"ill-typed": ["ret", repr("abab")], "well-typed": ["ret", "8"], "method": ["ret", repr("abab")]}
+        checked = {"ill-typed": ["tce", None], "well-typed": ["ret", "8"], "method": ["tce", None]}
+        # (environment value, steps, expectation per probe step)
+        runs = [
+            ("TRUE", "p1,on,p2,off,p3", {"p1": plain, "p2": checked, "p3": plain}),
+            (None, "p1,off,p2,on,p3", {"p1": checked, "p2": plain, "p3": checked}),
+            ("0", "p1", {"p1": checked}),
+            ("1", "p1,on,p2", {"p1": plain, "p2": checked}),
+        ]
+        for envval, steps, want in runs:
+            env = {k: v for k, v in os.environ.items() if k not in ("JAXTYPING_DISABLE", "PYTHONDONTWRITEBYTECODE")}
+            if envval is not None:
+                env["JAXTYPING_DISABLE"] = envval
+            p = subprocess.run([PY, "-c", HOOKED_CHILD, root, REPO, steps], env=env, capture_output=True, text=True, timeout=300, cwd=root)
+            line = next((l for l in p.stdout.splitlines() if l.startswith("RESULT ")), None)
+            out.case(("hooked-module", envval, steps), True, sample={"JAXTYPING_DISABLE": envval, "steps": steps, "result": line})
+            if line is None:
+                out.violation(f"hooked-module:{envval}:crash", f"a hooked module could not be exercised with JAXTYPING_DISABLE={envval!r}: {p.stderr[-400:]}", {"hooked": True, "env": envval, "steps": steps})
+                continue
+            res = json.loads(line[7:])
+            for step, exp in want.items():
+                for probe, w in exp.items():
+                    g = res.get(f"{step}:{probe}")
+                    if g != w:
+                        state = "off" if exp is plain else "on"
+                        out.violation(f"hooked-module:{state}:{probe}",
+                                      f"hooked module, JAXTYPING_DISABLE={envval!r}, steps {steps} (shared __pycache__ with the earlier runs): at {step} checking is {state}, "
+                                      f"so the {probe} call must give {w} but gives {g}", {"hooked": True, "env": envval, "steps": steps, "observed": res})
+                        break
 
 
 # ----------------------------------------------------------------------------- behaviour
@@ -297,8 +365,12 @@ def run(tier, seed, out, drv, facts):
     config_cases(out, drv)
     env_cases(out, thorough)
     behaviour_cases(out, rng, thorough)
+    hooked_module_cases(out)
     toggling_programs(out, drv, facts, rng, 2000 if thorough else 150)
 
 
 def replay(rep, out, drv, facts):
+    if rep.get("hooked"):
+        hooked_module_cases(out)
+        return
     run("quick", 0, out, drv, facts)
